@@ -32,6 +32,8 @@ def main():
                 feats = '--features ' + m.group(1)
             if '--all-features' in meta.get('demo_cmd', ''):
                 feats = '--all-features'
+            if '--release' in meta.get('demo_cmd', ''):
+                feats += ' --release'
             sh('git checkout -- . && git clean -fdq -e target', WT)
             os.makedirs(os.path.join(WT, 'tests'), exist_ok=True)
             shutil.copy(os.path.join(sd, 'demo.rs'), os.path.join(WT, 'tests', name + '.rs'))
